@@ -1,1 +1,6 @@
 import SpgProofs.Properties.C01
+import SpgProofs.Properties.C03
+import SpgProofs.Properties.C08
+import SpgProofs.Properties.C10
+import SpgProofs.Properties.C11
+import SpgProofs.Properties.C12
